@@ -139,6 +139,8 @@ class Explorer:
         self.keys_ran = set()
         self.machinery = []          # messages
         self.flaky = []
+        self.transient = []   # violated once, passed on a confirmation replay: not a stable verdict
+        self.retried_ok = 0
         self.violations = []         # confirmed, not known: dict(script, verdict, obs, replay_path)
         self.known_hits = {}         # finding id -> count
         self.known = load_known(prop)
@@ -159,6 +161,7 @@ class Explorer:
     def run(self, scripts, label=''):
         """Run all scripts (list). Violations are confirmed concurrently."""
         pending = []   # (script, first_result, [async1, async2])
+        retry = []     # (script, machinery result)
         n = len(scripts)
         it = self.pool.imap_unordered(_task, list(enumerate(scripts)), chunksize=1)
         got = 0
@@ -175,8 +178,34 @@ class Explorer:
             script = scripts[idx]
             self._account(script, res)
             if res['status'] == 'mach':
-                self.machinery.append('%s: %s' % (script.get('key'), res['msg']))
+                # a machinery error (a timeout while establishing a state, under load) is retried below,
+                # one script at a time; only a persistent one counts
+                retry.append((script, res))
                 continue
+            v = res['verdict']
+            if v is None:
+                continue
+            fid = self._known_match(script, v)
+            if fid is not None:
+                self.known_hits[fid] = self.known_hits.get(fid, 0) + 1
+                continue
+            pending.append((script, res, [self.pool.apply_async(run_and_judge, (script,)),
+                                          self.pool.apply_async(run_and_judge, (script,))]))
+        for script, res0 in retry:
+            res = res0
+            for _ in range(2):
+                try:
+                    res = self.pool.apply_async(run_and_judge, (script,)).get(timeout=300)
+                except Exception as e:
+                    res = {'status': 'mach', 'msg': 'retry failed: %r' % e}
+                if res['status'] != 'mach':
+                    break
+            if res['status'] == 'mach':
+                self.machinery.append('%s: %s (after 2 retries)' % (script.get('key'), res['msg']))
+                continue
+            self.retried_ok += 1
+            self._account(script, res)
+            self.ran -= 1
             v = res['verdict']
             if v is None:
                 continue
@@ -233,7 +262,7 @@ class Explorer:
             else:
                 sigs.append(r['verdict']['observed'])
         if not (sigs[0] == sigs[1] == v['observed']):
-            self.flaky.append({'key': script.get('key'), 'first': v['observed'], 'replays': sigs})
+            (self.transient if 'PASS' in sigs else self.flaky).append({'key': script.get('key'), 'first': v['observed'], 'replays': sigs})
             try:
                 d = os.path.join(OUT, 'replays', self.prop)
                 os.makedirs(d, exist_ok=True)
@@ -288,6 +317,8 @@ class Explorer:
             'known_finding_scripts': dict(self.known_hits),
             'violation_classes': dict(self.class_counts),
             'flaky_scripts': len(self.flaky),
+            'transient_discrepancies': [t['key'] for t in self.transient[:20]],
+            'machinery_retries_that_succeeded': self.retried_ok,
             'machinery_errors': len(self.machinery),
             'parallel_subjects': JOBS,
             'samples': self.samples,
@@ -311,6 +342,9 @@ class Explorer:
         print('%s tier=%s scripts=%d events=%d outcomes=%d known=%d violations=%d flaky=%d machinery=%d wall=%.1fs'
               % (self.prop, self.tier, self.ran, self.events, len(self.outcomes), sum(self.known_hits.values()),
                  nviol, len(self.flaky), len(self.machinery), wall))
+        if len(self.transient) > max(3, self.ran // 100):
+            self.machinery.append('%d scripts violated once and passed on replay: the driver is not deterministic enough' % len(self.transient))
+            print('MACHINERY: %s' % self.machinery[-1])
         if BLESS:
             return 2 if (self.machinery or self.flaky) else 0
         if nviol:
